@@ -96,6 +96,7 @@ structure St where
   cp : Plan := {}
   rp : RespPlan := {}
   interim : List Nat := []
+  flushFirst : Bool := false   -- handler order "f": WriteHeader, Flush, then read the request
   wres : String := ""
   cres : String := ""
 
@@ -159,7 +160,8 @@ def e2e (s : St) (method path : String) (cl : Int) (nobody : Bool) (h : Fields)
     let reqLine := s!"ok {method} {path} {sentCL} {showHL h} {hexOfBytes body} {e} {showTr e t}"
     let isHead := method == "HEAD"
     let (evs, rs) := respondInterim isHead s.rp.cl s.interim
-      (if s.rp.status = 0 then none else some s.rp.status) s.rp.ops (optTr s.rp.tr)
+      (if s.rp.status = 0 then none else some s.rp.status)
+      (if s.flushFirst then HOp.flush :: s.rp.ops else s.rp.ops) (optTr s.rp.tr)
     let (status, evs) := match clientFinal evs with | some r => r | none => (0, [])
     let total := chunks.flatten.length
     let early := e == "stopped" && body.length < total
@@ -202,6 +204,10 @@ def step (s : St) (line : String) : St × String :=
         ({ s with wres := b, cres := c }, a)
       else (s, "bad-op")
     | _, _, _, _ => (s, "bad-op")
+  | ["expect"] => (s, "ok")   -- Expect: 100-continue: the exchange must complete all the same
+  | ["order", o] =>
+    if o == "r" || o == "w" then ({ s with flushFirst := false }, "ok")
+    else if o == "f" then ({ s with flushFirst := true }, "ok") else (s, "bad-op")
   | ["interim", codes] =>
     match (codes.splitOn ".").mapM (fun t => t.toNat?) with
     | some cs => if cs.all (fun c => c == 100 || c == 102 || c == 103) ∧ !cs.isEmpty then ({ s with interim := cs }, "ok")
